@@ -25,7 +25,7 @@ MSGS = {'plain': 'division by zero', 'markup': 'bad ' + MARKUP + ' value', 'temp
         'nonascii': 'défaut ☃ 中文', 'colon': 'a: b: c', 'multiline': 'line one\nline two\n  indented', 'empty': '',
         'percent': '100%s %(x)d', 'long': 'm' * 3000, 'trailing-tab': 'bad separator \t', 'trailing-spaces': 'ends in blanks   ', 'leading-space': ' starts with a blank', 'very-long': 'first words ' + 'v' * 9000 + ' last words', 'exactly-4096': 'x' * 4096, 'around-4k': 'begin ' + 'y' * 4085, 'ignored': 'job 7 ignored', 'exception-word': 'Exception ignored'}
 EXCS = ['Exception', 'Exception', 'ZeroDivisionError', 'ValueError', 'KeyError', 'ImportError', 'ModuleNotFoundError', 'AttributeError', 'NameError',
-        'TypeError', 'RuntimeError', 'OSError', 'UnicodeDecodeError', 'RecursionError', 'CustomError']
+        'TypeError', 'RuntimeError', 'OSError', 'UnicodeDecodeError', 'RecursionError', 'CustomError', 'LocalError', 'DashModuleError']
 FILES = ['/app/main.py', '/app/pkg/<b id=simx>.py', '/app/ünï.py', '/app/a&b.py', '/app/{tmpl}.py', '/app/' + 'd' * 300 + '.py',
          '/app/with space.py', "/app/quote'\".py", '{stdlib}/os.py', '{stdlib}/json/decoder.py', '{werkzeug}/wrappers/base_response.py',
          '{clastic}/application.py', '{clastic}/_clastic_assets/common.css',
@@ -59,6 +59,18 @@ class CustomError(Exception):
     pass
 
 
+def _local_error_type():
+    # a class defined inside a function is printed as "module.function.<locals>.Name: message"
+    class LocalError(Exception):
+        pass
+    return LocalError
+
+
+LocalError = _local_error_type()
+# (a script directory or distribution name with a dash is a module name for CPython's traceback printer all the same)
+DashModuleError = type('DashModuleError', (Exception,), {'__module__': 'my-app.errors'})
+
+
 def raise_at_depth_b(exc_name, msg, depth, chained):
     # alternate two functions: CPython collapses runs of identical frames
     # ("[Previous line repeated N more times]"), which would keep deep tracebacks short
@@ -70,8 +82,8 @@ def raise_at_depth(exc_name, msg, depth, chained):
         return raise_at_depth_b(exc_name, msg, depth, chained)
     if exc_name == 'UnicodeDecodeError':
         exc = UnicodeDecodeError('utf8', b'\xff', 0, 1, msg)
-    elif exc_name == 'CustomError':
-        exc = CustomError(msg)
+    elif exc_name in ('CustomError', 'LocalError', 'DashModuleError'):
+        exc = globals()[exc_name](msg)
     else:
         exc = getattr(__builtins__, exc_name, None) if not isinstance(__builtins__, dict) else __builtins__.get(exc_name)
         exc = exc(msg)
@@ -293,7 +305,7 @@ class C20(Check):
             return {'kind': 'lines', 'lines': rng.choice([['Segmentation fault'], ['Killed'], [MARKUP], ['{tb_str}'], ['no colon here'],
                                                           ['Traceback (most recent call last):'], ['warning: x', 'Error: ' + MARKUP], ['\x1b[31mred\x1b[0m']])}
         return {'kind': 'traceback', 'exc': rng.choice(EXCS), 'msg': rng.choice(sorted(MSGS)),
-                'depth': rng.choice([1, 1, 2, 5, 40, 600, 900]), 'chained': rng.random() < 0.2}
+                'depth': rng.choice([1, 1, 2, 5, 40, 600, 900]), 'chained': rng.random() < 0.3}
 
     def generate(self, seed, tier):
         S = Streams(seed)
